@@ -170,14 +170,15 @@ class ModuleTranslator:
     """Translate selected functions/constants of one Python module."""
 
     def __init__(self, modname, pymod, path, funcs=(), consts=(), partials=(),
-                 externs=None, libcalls=None, fuel=None, methods=None):
+                 externs=None, libcalls=None, fuel=None, methods=None, import_consts=()):
         self.modname = modname
         self.pymod = pymod
         self.path = path
         self.src = open(path).read()
         self.tree = ast.parse(self.src)
         self.func_names = list(funcs)
-        self.const_names = list(consts)
+        self.import_consts = list(import_consts)
+        self.const_names = list(consts) + list(import_consts)
         self.partial_names = list(partials)
         # externs: python name -> ('const'|'func', coq qualified name, FuncInfo|None)
         self.externs = dict(externs or {})
@@ -250,20 +251,45 @@ class ModuleTranslator:
             out.append(f"From PV Require Gen.{dep}.")
         out.append("")
         for c in self.const_names:
-            self.find_assign(c)     # must still be a module-level assignment
+            if c not in self.import_consts:
+                self.find_assign(c)     # must still be a module-level assignment
             out.append(f"Definition c_{c} : pyval := {coq_value(getattr(mod, c))}.")
         out.append("")
         for f in self.func_names:
             fd = self.find_def(f)
             self.infos[f.split('.')[-1] if '.' in f else f] = self.info_of(fd, f)
             self.infos[f] = self.infos[f.split('.')[-1] if '.' in f else f]
-        for f in self.func_names:
+        for f in self.dependency_order():
             out.append(self.function(self.find_def(f), self.infos[f]))
             out.append("")
         for p in self.partial_names:
             out.append(self.partial(p))
             out.append("")
         return "\n".join(out)
+
+    def dependency_order(self):
+        """func_names with callees before callers (stable; self-calls ignored)."""
+        short = {f.split('.')[-1]: f for f in self.func_names}
+        deps = {}
+        for f in self.func_names:
+            fd = self.find_def(f)
+            deps[f] = [short[n.func.id] for n in ast.walk(fd)
+                       if isinstance(n, ast.Call) and isinstance(n.func, ast.Name)
+                       and n.func.id in short and short[n.func.id] != f]
+        out, seen = [], set()
+
+        def visit(f, stack=()):
+            if f in seen:
+                return
+            if f in stack:
+                raise Untranslatable(f"mutual recursion through {f}")
+            for d in deps[f]:
+                visit(d, stack + (f,))
+            seen.add(f)
+            out.append(f)
+        for f in self.func_names:
+            visit(f)
+        return out
 
     def partial(self, name):
         asg = self.find_assign(name)
@@ -348,6 +374,8 @@ class ModuleTranslator:
         if isinstance(s, ast.Assign):
             if len(s.targets) != 1:
                 bail(s, "chained assignment")
+            if self.quant_assign(s):
+                return self.block(rest, ret, k)
             return self.assign(s.targets[0], self.E(s.value), rest, ret, k)
         if isinstance(s, ast.AugAssign):
             if not isinstance(s.target, ast.Name) or type(s.op) not in BINOPS:
@@ -766,7 +794,72 @@ class ModuleTranslator:
         return t
 
     def special_call(self, e):
+        """Source idioms mapped as a whole to one library function."""
+        # float(Decimal(repr(X)).quantize(Q, rounding=R))
+        if (isinstance(e.func, ast.Name) and e.func.id == 'float' and len(e.args) == 1
+                and isinstance(e.args[0], ast.Call)
+                and isinstance(e.args[0].func, ast.Attribute)
+                and e.args[0].func.attr == 'quantize'):
+            q = e.args[0]
+            recv = q.func.value
+            if not (isinstance(recv, ast.Call) and isinstance(recv.func, ast.Name)
+                    and recv.func.id == 'Decimal' and len(recv.args) == 1
+                    and isinstance(recv.args[0], ast.Call)
+                    and isinstance(recv.args[0].func, ast.Name)
+                    and recv.args[0].func.id == 'repr' and len(recv.args[0].args) == 1):
+                bail(e, "quantize receiver is not Decimal(repr(x))")
+            x = recv.args[0].args[0]
+            if len(q.args) != 1 or len(q.keywords) != 1 or q.keywords[0].arg != 'rounding':
+                bail(e, "quantize arguments")
+            nd = self.quant_digits(q.args[0])
+            mode = self.E(q.keywords[0].value)
+            return (f"(bind {self.E(x)} (fun x_ => bind {nd} (fun nd_ => bind {mode} "
+                    f"(fun m_ => py_quantize_v x_ nd_ m_))))")
         return None
+
+    def quant_digits(self, qe):
+        """The number of decimal digits denoted by a quantum expression:
+        Decimal(repr(pow(10, -ND))) -> ND;  a name bound by
+        NAME = Decimal(f'1E{"+-"[ND >= 0]}{abs(ND)}') -> ND."""
+        if isinstance(qe, ast.Name) and qe.id in getattr(self, 'quanta', {}):
+            return self.quanta[qe.id]
+        if (isinstance(qe, ast.Call) and isinstance(qe.func, ast.Name) and qe.func.id == 'Decimal'
+                and len(qe.args) == 1 and isinstance(qe.args[0], ast.Call)
+                and isinstance(qe.args[0].func, ast.Name) and qe.args[0].func.id == 'repr'):
+            inner = qe.args[0].args[0]
+            if (isinstance(inner, ast.Call) and isinstance(inner.func, ast.Name)
+                    and inner.func.id == 'pow' and len(inner.args) == 2
+                    and isinstance(inner.args[0], ast.Constant) and inner.args[0].value == 10
+                    and isinstance(inner.args[1], ast.UnaryOp)
+                    and isinstance(inner.args[1].op, ast.USub)):
+                return self.E(inner.args[1].operand)
+        bail(qe, "unrecognised Decimal quantum")
+
+    QUANT_FSTR = ("JoinedStr(values=[Constant(value='1E'), FormattedValue(value=Subscript("
+                  "value=Constant(value='+-'), slice=Compare(left=Name(id='@', ctx=Load()), "
+                  "ops=[GtE()], comparators=[Constant(value=0)]), ctx=Load()), conversion=-1), "
+                  "FormattedValue(value=Call(func=Name(id='abs', ctx=Load()), "
+                  "args=[Name(id='@', ctx=Load())], keywords=[]), conversion=-1)])")
+
+    def quant_assign(self, s):
+        """NAME = Decimal(f'1E{"+-"[ND >= 0]}{abs(ND)}'): remember NAME -> ND."""
+        if not (isinstance(s, ast.Assign) and len(s.targets) == 1
+                and isinstance(s.targets[0], ast.Name) and isinstance(s.value, ast.Call)
+                and isinstance(s.value.func, ast.Name) and s.value.func.id == 'Decimal'
+                and len(s.value.args) == 1 and isinstance(s.value.args[0], ast.JoinedStr)):
+            return False
+        js = s.value.args[0]
+        try:
+            nd = js.values[2].value.args[0].id
+        except (AttributeError, IndexError):
+            bail(s, "unrecognised Decimal f-string")
+        if ast.dump(js) != self.QUANT_FSTR.replace('@', nd):
+            bail(s, "unrecognised Decimal f-string")
+        self.need(nd, s)
+        if not hasattr(self, 'quanta'):
+            self.quanta = {}
+        self.quanta[s.targets[0].id] = f"(Ok v_{nd})"
+        return True
 
     def builtin_call(self, n, e):
         if e.keywords:
